@@ -8,22 +8,21 @@ META = {
             'reference merge written from the property, serialised and compared as one string. C03-b: the value goes '
             'through the real tokenizer character by character.',
     'bounds': {
-        'quick': 'K<=2 mentions over 11 kinds x 5 names, values 1..2 chars (code points <256, no line breaks); 9 option '
+        'quick': 'K<=2 mentions over 12 kinds x 5 names, values 1..2 chars (code points <256, no line breaks); 9 option '
                  'sets (quotes, compactBoolean, reverseAttributes, selfClosingStyle, attributeCase, jsx, vue, custom '
                  'markup.attributes); char level: quoted / unquoted / shorthand value of <=2 chars',
         'thorough': 'K<=3 mentions; char level <=3 chars',
     },
     'outside_claim': ['duplicates that mix expression, boolean or implied mentions with plain ones (the property does not '
                       'order those flags)', 'an empty class value merged with another class', 'compactBoolean under '
-                      'xhtml/xml self-closing style', 'attributeCase together with boolean expansion (case of the '
-                      'generated value)', 'markup.valuePrefix', 'values containing line breaks (re-flowed by the formatter)'],
+                      'xhtml/xml self-closing style', 'markup.valuePrefix', 'values containing line breaks (re-flowed by the formatter)'],
     'stubs': ['tokenization of the concrete template string runs outside the tracer (same real function)',
               'Config object is constructed outside the tracer from concrete options'],
 }
 
 NAMES = ['a', 'class', 'id', 'checked', 'for']
-ID, CLS, RAW, DQ, SQ, EXPR, NOVAL, BOOL, IMPL, IMPLV, EMPTY = range(11)
-NKIND = 11
+ID, CLS, RAW, DQ, SQ, EXPR, NOVAL, BOOL, IMPL, IMPLV, EMPTY, IMPLBOOL = range(12)
+NKIND = 12
 PLAIN = (ID, CLS, RAW, DQ, SQ, NOVAL, EMPTY)
 HASVAL = (ID, CLS, RAW, DQ, SQ, EXPR, IMPLV)
 
@@ -44,7 +43,7 @@ def mention_text(kind, name, marker):
     if kind == CLS:
         return '.' + marker
     return {RAW: '[%s=%s]', DQ: '[%s="%s"]', SQ: "[%s='%s']", EXPR: '[%s={%s}]', NOVAL: '[%s]', BOOL: '[%s.]',
-            IMPL: '[!%s]', IMPLV: '[!%s=%s]', EMPTY: '[%s=""]'}[kind].replace('%s', name, 1).replace('%s', marker)
+            IMPL: '[!%s]', IMPLV: '[!%s=%s]', EMPTY: '[%s=""]', IMPLBOOL: '[!%s.]'}[kind].replace('%s', name, 1).replace('%s', marker)
 
 
 def reference(mentions, opts, syntax):
@@ -88,11 +87,9 @@ def reference(mentions, opts, syntax):
         is_bool = kind == BOOL or (name in booleans and kind in (NOVAL, EMPTY, IMPL))
         if name in booleans and kind == EMPTY:
             return None
-        if kind == IMPL:
-            continue
+        if kind in (IMPL, IMPLBOOL):
+            continue      # implied without value: dropped (also when marked boolean)
         if is_bool:
-            if upper:
-                return None
             if compact:
                 if style != 'html':
                     return None
